@@ -251,6 +251,15 @@ theorem np_loopBody (g : Globals) : ∀ (l : List LoopStmt) (lb le : Name) (rc b
       exact np_loopBody g tl lb le rc bc true _ hok h0
 end
 
+theorem push_panic (i : Instr) (s : St) : (s.push i).panic = s.panic := by
+  unfold St.push St.mapFrames; rfl
+
+theorem fnReturn_panic (g : Globals) (resTy : Ty) (e : Expr) (rc : Bool) (s : St) :
+    (fnReturn g resTy e rc s).1.panic = s.panic := by
+  obtain ⟨s2, h, hq | ⟨r, hq⟩⟩ := fnReturn_split g resTy e rc s
+  · rw [hq]; exact h.panic_eq
+  · rw [hq]; dsimp only; split <;> (rw [push_panic]; exact h.panic_eq)
+
 theorem np_bodyStmts (g : Globals) (resTy : Ty) : ∀ (l : List BodyStmt) (rc : Bool) (s : St),
     BodyStmt.loopOKL l = true → s.panic = none → (bodyStmts g resTy l rc s).1.panic = none
   | [], _, s => by intro _ hs; unfold bodyStmts; exact hs
@@ -281,14 +290,14 @@ theorem np_bodyStmts (g : Globals) (resTy : Ty) : ∀ (l : List BodyStmt) (rc : 
     | expr e =>
       unfold BodyStmt.loopOKL at hok
       dsimp only
-      have h1 : (fnReturn g resTy e rc s0).1.panic = none := by rw [(esteps_fnReturn g resTy e rc s0).panic_eq]; exact h0
+      have h1 : (fnReturn g resTy e rc s0).1.panic = none := by rw [fnReturn_panic]; exact h0
       generalize fnReturn g resTy e rc s0 = q at h1
       obtain ⟨s1, r⟩ := q
       exact np_bodyStmts g resTy tl r s1 hok h1
     | ret e =>
       unfold BodyStmt.loopOKL at hok
       dsimp only
-      have h1 : (fnReturn g resTy e rc s0).1.panic = none := by rw [(esteps_fnReturn g resTy e rc s0).panic_eq]; exact h0
+      have h1 : (fnReturn g resTy e rc s0).1.panic = none := by rw [fnReturn_panic]; exact h0
       generalize fnReturn g resTy e rc s0 = q at h1
       obtain ⟨s1, r⟩ := q
       exact np_bodyStmts g resTy tl r s1 hok h1
